@@ -424,6 +424,8 @@ def run_property(prop, tier, overrides=None, repo=None):
     for rel_ in sorted(ctx.files):
         if rel_.endswith(".pyx") and rel_ in ctx._cache:
             _lints.declared_types_keep_values(ctx, rel_)
+        if rel_ in ctx._cache:
+            _lints.none_distinction_kept(ctx, rel_)
     return ctx, mod
 
 
